@@ -50,7 +50,9 @@ RetItems(s, c, o) == IF c.unit = "f" THEN o.ret * s.ch ELSE o.ret
 \* (block encoders opened for writing keep no meaningful frame count of their own -- W64 ADPCM parks it at a huge
 \*  value -- so for them the model counts the frames itself and the hook's figure is not compared)
 FrObs(s) == s.gran \/ s.mode # SFM_WRITE
-SamePos(s, o) == o.rp = s.rpos /\ o.wp = s.wpos /\ (FrObs(s) => o.fr = s.frames)
+\* (under I/O faults a header rewrite may recompute the count from a lying length: adopted, not compared)
+FrCheck(s) == FrObs(s) /\ ~s.relax
+SamePos(s, o) == o.rp = s.rpos /\ o.wp = s.wpos /\ (FrCheck(s) => o.fr = s.frames)
 ErrFlag(o) == o.er # 0
 
 \* successor handle state: positions and error flag are what the (already checked) observation says
@@ -72,12 +74,13 @@ ReadOK(s, cv, c, o) ==
                 ri   == RetItems(s, c, o)
                 base == s.rpos * s.ch
             IN /\ IF s.relax THEN ri >= 0 /\ ri <= want ELSE ri = want /\ ~ErrFlag(o)
-               /\ o.rp = s.rpos + ri \div s.ch /\ o.wp = s.wpos /\ o.fr = s.frames
+               /\ o.rp = s.rpos + ri \div s.ch /\ o.wp = s.wpos /\ (FrCheck(s) => o.fr = s.frames)
                /\ Len(o.out) = ri
-               /\ \A i \in 1..ri : (base + i <= Len(cv.kt) /\ cv.kt[base + i] = c.T) => cv.val[base + i] = o.out[i]
+               \* (under faults a short transfer can leave the stream misaligned: no data clause then)
+               /\ s.relax \/ \A i \in 1..ri : (base + i <= Len(cv.kt) /\ cv.kt[base + i] = c.T) => cv.val[base + i] = o.out[i]
 
 ReadPost(s, cv, c, o) ==
-    IF c.n <= 0 \/ ReadInvalid(s, c) \/ s.rpos >= s.frames THEN [s |-> Adopt(s, o), cv |-> cv]
+    IF c.n <= 0 \/ ReadInvalid(s, c) \/ s.rpos >= s.frames \/ s.relax THEN [s |-> Adopt(s, o), cv |-> cv]
     ELSE LET ri == RetItems(s, c, o)  base == s.rpos * s.ch
              v2 == Splice(cv.val, base, o.out, 0)
              k2 == Splice(cv.kt, base, Rep(c.T, ri), "-")
@@ -104,7 +107,7 @@ RawReadOK(s, cv, c, o) ==
        ELSE IF bw = 0 \/ c.n % bw # 0 THEN o.ret = 0 /\ SamePos(s, o) /\ (bw > 0 => ErrFlag(o))
        ELSE LET want == Min(c.n, (s.frames - s.rpos) * bw) IN
             /\ IF s.relax THEN o.ret >= 0 /\ o.ret <= want ELSE o.ret = want /\ ~ErrFlag(o)
-            /\ o.rp = s.rpos + o.ret \div bw /\ o.wp = s.wpos /\ o.fr = s.frames
+            /\ o.rp = s.rpos + o.ret \div bw /\ o.wp = s.wpos /\ (FrCheck(s) => o.fr = s.frames)
 
 -----------------------------------------------------------------------------
 \* sf_write_* / sf_writef_*
@@ -117,7 +120,7 @@ WriteOK(s, cv, c, o) ==
     ELSE LET wi == RetItems(s, c, o) IN
          /\ IF s.relax THEN wi >= 0 /\ wi <= Items(s, c) ELSE wi = Items(s, c) /\ ~ErrFlag(o)
          /\ o.wp = s.wpos + wi \div s.ch
-         /\ FrObs(s) => o.fr = Max(s.frames, o.wp)
+         /\ FrCheck(s) => o.fr = Max(s.frames, o.wp)
          /\ o.rp = s.rpos
 
 WritePost(s, cv, c, o) ==
@@ -180,7 +183,7 @@ SeekOK(s, cv, c, o) ==
     ELSE IF SeekIsQuery(s, c) THEN o.ret = SeekCur(s, c) /\ ~ErrFlag(o) /\ SamePos(s, o)
     ELSE IF SeekOutOfRange(s, c) THEN SeekFailObs(s, o)
     ELSE LET k == SeekTarget(s, c) nm == SeekNewMode(s, c) IN
-         \/ /\ o.ret = k /\ ~ErrFlag(o) /\ o.fr = s.frames
+         \/ /\ o.ret = k /\ ~ErrFlag(o) /\ (FrCheck(s) => o.fr = s.frames)
             /\ o.rp = (IF nm \in {SFM_READ, SFM_RDWR} THEN k ELSE s.rpos)
             /\ o.wp = (IF nm \in {SFM_WRITE, SFM_RDWR} THEN k ELSE s.wpos)
          \/ SeekMayRefuse(s, c) /\ SeekFailObs(s, o)
